@@ -7,7 +7,7 @@ use serde_json::json;
 use vcommon::prng::{hash_bytes, Rng};
 use vcommon::report::{guard, run_parallel, Report};
 use vcommon::val::{show, val_eq, Val};
-use vcommon::valdec;
+use vcommon::{getters, valdec};
 
 fn hex(b: &[u8]) -> String {
     b.iter().take(600).map(|x| format!("{:02x}", x)).collect()
@@ -129,15 +129,76 @@ pub fn run(a: &Args) -> Report {
     let rounds = a.u("rounds", if thorough { 12 } else { 2 });
     let mut cfg = a.run_cfg(idx.len() as u64 * rounds);
     let n_individual = idx.len() as u64 * rounds;
+    // long-lived registries: one registry that sees every in-scope type again and again
+    let n_long: u64 = if thorough { 16 } else { 4 };
     if !a.has("case") {
         // every in-scope type `rounds` times on its own, then a quarter as many batch registrations
-        cfg.cases = n_individual + n_individual / 4;
+        cfg.cases = n_individual + n_individual / 4 + n_long;
     }
     let no_bitvec = a.has("no-bitvec");
     let mut total = Report::default();
     total.count("corpus_entries_in_scope", idx.len() as u64);
     let phantomish: Vec<usize> = idx.iter().copied().filter(|j| es[*j].text.contains("PhantomData")).collect();
     let body = run_parallel(&cfg, |i, rep| {
+        if i >= n_individual + n_individual / 4 {
+            // One registry, many thousands of registrations: whatever the registry carries from call to call
+            // (tables, counters) must not change what a type's id describes, however long it has been in use.
+            let mut rng = Rng::derive(seed ^ 0x77, i);
+            let mut order: Vec<usize> = idx.clone();
+            rng.shuffle(&mut order);
+            let passes = (14_000 / order.len().max(1) + 2).max(4);
+            let mut r = Registry::new();
+            let mut first: Vec<u32> = Vec::new();
+            let mut regs = 0u64;
+            for pass in 0..passes {
+                for (k, j) in order.iter().enumerate() {
+                    let meta = (es[*j].meta)();
+                    let id = match guard(|| r.register_type(&meta).id) {
+                        Ok(id) => id,
+                        Err(p) => {
+                            rep.violation(&format!("{}/registration-panic", prop), format!("a registry in use for {} registrations panicked on `{}` (pass {}): {}", regs, es[*j].text, pass, p), json!({"case": i, "seed": seed, "long_lived": true, "registrations": regs}));
+                            return;
+                        }
+                    };
+                    regs += 1;
+                    if pass == 0 {
+                        first.push(id);
+                    } else if first[k] != id {
+                        rep.violation(&format!("{}/long-lived-id-changes", prop), format!("`{}` had id {} and has id {} after {} registrations in the same registry", es[*j].text, first[k], id, regs), json!({"case": i, "seed": seed, "long_lived": true}));
+                        return;
+                    }
+                }
+            }
+            rep.count("long_lived_registries", 1);
+            rep.count("long_lived_registrations", regs);
+            let reg: PortableRegistry = r.into();
+            for _ in 0..200 {
+                let k = rng.below(order.len());
+                let e = &es[order[k]];
+                if no_bitvec && e.text.contains("BitVec") {
+                    continue;
+                }
+                let Some(sample) = e.sample else { continue };
+                let Ok((bytes, model)) = guard(|| sample(&mut rng)) else { return };
+                rep.eval(None);
+                match guard(|| valdec::decode_exact(&reg, first[k], &bytes)) {
+                    Ok(Ok(got)) if val_eq(&got, &model) => rep.count("long_lived_values_decoded", 1),
+                    Ok(Ok(got)) => {
+                        rep.violation(&format!("{}/value-mismatch", prop), format!("`{}` in a long-lived registry: decoded {} expected {}", e.text, show(&got), show(&model)), json!({"case": i, "seed": seed, "long_lived": true, "type": e.text}));
+                        return;
+                    }
+                    Ok(Err(why)) => {
+                        rep.violation(&format!("{}/undecodable", prop), format!("`{}` in a long-lived registry: {}", e.text, why), json!({"case": i, "seed": seed, "long_lived": true, "type": e.text}));
+                        return;
+                    }
+                    Err(p) => {
+                        rep.inconclusive(format!("schema-directed decoder panicked: {}", p));
+                        return;
+                    }
+                }
+            }
+            return;
+        }
         if i >= n_individual {
             // several types registered in one `register_types` call: the id handed back for the k-th type must describe the k-th type
             let mut rng = Rng::derive(seed ^ 0x33, i);
@@ -206,6 +267,18 @@ pub fn run(a: &Args) -> Report {
         };
         let reg: PortableRegistry = r.into();
         rep.count("types_exercised", 1);
+        // a consumer reading through the accessor methods must see what a consumer reading the fields sees
+        match guard(|| getters::check_registry(&reg).and_then(|n| getters::check_type(&meta.type_info()).map(|m| n + m))) {
+            Ok(Ok(n)) => rep.count("accessor_answers_compared", n),
+            Ok(Err(why)) => {
+                rep.violation(&format!("{}/accessor-disagrees-with-field", prop), format!("`{}`: {}", e.text, why), json!({"type": e.text}));
+                return;
+            }
+            Err(p) => {
+                rep.violation(&format!("{}/accessor-panic", prop), p, json!({"type": e.text}));
+                return;
+            }
+        }
         for t in e.tags.split(',').filter(|t| !t.is_empty()) {
             rep.count(&format!("tag_{}", t), 1);
         }
